@@ -10,9 +10,8 @@ Known defects of the pinned tree whose trigger the generator avoids (witnesses i
 corpus/C14/finding_*.json, replayed through the (P) oracle on every run):
   D17_dir_double_fault        a faulted *directory* save immediately followed by
                               another faulted save (trigger predicate: [calm] below)
-  load_fail_renames_existing  a load that fails after the "_name" line was parsed
-                              while a model of the same name is open (trigger: a
-                              faulted load without name= / with the name of an open model)
+  (load_fail_renames_existing, a load failing after the "_name" line while a model of the same
+   name is open, is repaired in /repo and generated again)
 """
 import os, json, glob, itertools
 import fw
@@ -203,15 +202,13 @@ def gen_cases(tier, rng, sh, out):
         for f in ("zip", "dir"):
             n = sh.nload(kind, f)
             loads = [{"fault": None, "name": "R"}] + [{"fault": k, "name": "R"} for k in range(n + 1)] + [{"fault": None}]
-            # without name=: only faults before the "_name" line is parsed (the rename trigger is avoided)
-            early = 3 if f == "zip" else 2
-            loads += [{"fault": k} for k in range(early + 1)]
+            # without name=: the open model of that name is renamed aside at the "_name" line and must get its name back
+            loads += [{"fault": k} for k in range(n + 1)]
             cases.append({"model": kind, "saves": [sv(f)], "loads": loads, "final": None, "tag": "loads"})
             nmembers = 12
             dmg = [{"corrupt": {"what": w, "index": i}, "name": "R"} for i in range(nmembers) for w in ("delete", "truncate")]
             cases.append({"model": kind, "saves": [sv(f)], "loads": dmg, "final": None, "tag": "damaged", "ponly": True})
     out.notes.append("generator avoids the trigger of D17 (faulted dir save directly followed by a faulted save): %d candidate sequences filtered" % filtered)
-    out.notes.append("generator avoids the trigger of load_fail_renames_existing (failing load after the _name line while a model of that name is open): such loads are generated with name='R' only")
     return cases
 
 
